@@ -18,6 +18,10 @@ func main() {
 		runC02()
 	case "C06":
 		runC06()
+	case "C03":
+		runC03()
+	case "C18":
+		runC18()
 	default:
 		fmt.Fprintln(os.Stderr, "unknown property", os.Args[1])
 		os.Exit(64)
